@@ -315,6 +315,18 @@ def run_ppoly(t):
     out = []
     base = pord if pord > 0 else 5
     ncs = sorted({1, 2, base, base + 1, base + 2})
+    # default-constructed object
+    s0 = D.Script()
+    s0.add('pp.default P')
+    s0.add('pp.meta P M')
+    s0.add('pp.at P 0 A0')
+    s0.add('pp.at P -1 A1')
+    sc0 = O.Scenario(ID, 'ppoly %s default-constructed' % ty, tu, s0, timeout=t['timeout'])
+    sc0.int_eq('default-constructed: not initialised', 'M.init', 0)
+    sc0.int_eq('default-constructed: no segments', 'M.nseg', 0)
+    sc0.int_eq('default-constructed: at(0) throws', 'A0.threw', 1)
+    sc0.int_eq('default-constructed: at(-1) throws', 'A1.threw', 1)
+    out.append(sc0)
     for nbp in (0, 1, 2, 3, 4):
         for nc in ncs:
             for drow in (-1, 0, 1):
